@@ -144,13 +144,16 @@ impl CacheObliviousSort {
     fn funnel_sort_recursive<T: Clone + Ord>(&mut self, data: &mut [T], k: usize) -> Result<()> {
         let n = data.len();
         
-        if n <= self.config.small_threshold {
+        if n <= self.config.small_threshold || n <= 1 {
             self.insertion_sort(data);
             return Ok(());
         }
 
-        // Calculate optimal subdivision parameters
-        let sqrt_k = (k as f64).sqrt() as usize;
+        // Calculate optimal subdivision parameters.  Every level must split into at
+        // least two non-empty sublists (2 <= k <= n), otherwise the recursion would be
+        // entered again with the whole slice and never terminate.
+        let k = k.max(2).min(n);
+        let sqrt_k = ((k as f64).sqrt() as usize).max(2);
         let chunk_size = n / k;
         
         // Recursively sort k sublists
